@@ -3,7 +3,7 @@ from _cfg import *
 
 def variants(key, rng):
     """other spellings of the same key"""
-    if '->' in key: a, b = key.split('->'); return ['%s -> %s' % (a, b), '%s->%s ' % (a, b), ' %s-> %s' % (a, b), '%s\t->\t%s' % (a, b), '%s->\t%s' % (a, b)]
+    if '->' in key: a, b = key.split('->'); return ['%s -> %s' % (a, b), '%s->%s ' % (a, b), ' %s-> %s' % (a, b), '%s\t->\t%s' % (a, b), '%s->\t%s' % (a, b), '%s\u00a0->\u00a0%s' % (a, b), '%s->\x0c%s' % (a, b)]      # (the last two: other white space than blank and tab)
     if '-' in key: a, b = key.split('-'); return ['%s - %s' % (a, b), '%s-%s' % (b, a), '%s - %s' % (b, a), ' %s -%s' % (a, b), '%s\t-\t%s' % (a, b), '%s\t-%s' % (b, a)]
     if '(' in key: return [key.replace(',', ', '), key.replace('(', ' ('), key.replace(',', ' ,'), key.replace(',', ',\t'), key.replace('(', '\t(')]
     return [key + ' ', ' ' + key]
@@ -46,6 +46,14 @@ def check_case(rep, case, name):
             rep.dev(name, case, 'accepted silently: item [%s] %r added next to %r' % (sec, alt, k), 'configuration error')
         except ConfigurationException: rep.ok()
         except Exception as e: rep.dev(name, case, '%s: %s' % (type(e).__name__, str(e)[:80]), 'configuration error')
+        # the same NEW item added twice (it is not in the file): the second addition defines it a second time
+        nk = {'Pair': 'Zz-Zz', 'EAM-Embed': 'Zz', 'Potential-Form': 'h(r,Q)'}[sec]; nk2 = rng.choice([nk] + variants(nk, rng)) if case['variant'] else nk
+        if sec == 'Pair' and nk2.replace(' ', '').replace('\t', '') != nk: nk2 = nk
+        try:
+            tabulate_text(None, ConfigParser(io.StringIO(ini), additional=[ConfigParserOverrideTuple(sec, nk, v), ConfigParserOverrideTuple(sec, nk2, v)]))
+            rep.dev(name, dict(case, twice=True), 'accepted silently: item [%s] %r added twice (as %r and %r)' % (sec, nk, nk, nk2), 'configuration error')
+        except ConfigurationException: rep.ok()
+        except Exception as e: rep.dev(name, dict(case, twice=True), '%s: %s' % (type(e).__name__, str(e)[:80]), 'configuration error')
         return
     ini = render([], [(n, e) for n, e in secs.items()] + [('Table-Form:' + n, e) for n, e in tables])
     try:
